@@ -103,9 +103,9 @@ func bech32Text(t M, payload []byte) string {
 	if vtrace.Str(t["pad"]) == "nonzero" {
 		five[len(five)-1] |= 1 // the specification only asks for it when padding bits exist
 	}
-	hrp := "erd"
-	if vtrace.Str(t["hrp"]) != "erd" {
-		hrp = "other"
+	hrp := vtrace.Str(t["hrp"]) // the human-readable part is written as the specification names it ...
+	if hrp == "empty" {
+		hrp = "" // ... except the empty one
 	}
 	s, err := bech32.Encode(hrp, five)
 	if err != nil {
@@ -134,7 +134,11 @@ func hexText(t M, payload []byte) string {
 	if vtrace.Str(t["chars"]) == "bad" {
 		s = "g" + s[1:]
 	}
-	return applyCase(s, vtrace.Str(t["case"]))
+	s = applyCase(s, vtrace.Str(t["case"]))
+	if vtrace.Str(t["pre"]) == "0x" {
+		s = "0x" + s
+	}
+	return s
 }
 
 func payloadOf(rng *rand.Rand, n int, kind string) []byte {
